@@ -188,4 +188,67 @@ example : Val.dlookup (mergeAll [] [[("x", .int 1)], [("y", .int 2)]]) "x"
     = Val.dlookup (mergeAll [] [[("y", .int 2)], [("x", .int 1)]]) "x" :=
   C08_single_writer_order_free "x" [] _ _ (List.Perm.swap _ _ _) (by decide)
 
+/-! ### a snapshot listed more than once (an ancestor shared by the branches of a join) -/
+
+/-- `d` merged `n` times over `b` -/
+def mergeIter (d : Val.Dict) : Nat → Val.Dict → Val.Dict
+  | 0, b => b
+  | n + 1, b => mergeIter d n (Val.mergeDicts b d)
+
+theorem mergeAll_same_writer (k : String) (d : Val.Dict) : ∀ (ds : List Val.Dict) (base base' : Val.Dict),
+    Val.dlookup base k = Val.dlookup base' k →
+    (∀ x ∈ ds, writes k x = true → x = d) →
+    Val.dlookup (mergeAll base ds) k = Val.dlookup (mergeIter d (ds.filter (writes k)).length base') k := by
+  intro ds
+  induction ds with
+  | nil => intro base base' h _; exact h
+  | cons x rest ih =>
+    intro base base' h hw
+    show Val.dlookup (mergeAll (Val.mergeDicts base x) rest) k = _
+    have hrest : ∀ y ∈ rest, writes k y = true → y = d := fun y hy => hw y (List.mem_cons_of_mem _ hy)
+    by_cases hx : writes k x = true
+    · have hxd := hw x List.mem_cons_self hx
+      subst hxd
+      simp only [List.filter_cons, hx, if_true, List.length_cons]
+      exact ih _ _ (merge_congr _ x k _ _ h) hrest
+    · have hxn : Val.dlookup x k = none := by
+        cases hxk : Val.dlookup x k with
+        | none => rfl
+        | some v => exact absurd (by simp [writes, hxk]) hx
+      simp only [List.filter_cons, hx]
+      exact ih _ _ ((merge_frame _ x k hxn base).trans h) hrest
+
+/-- **C08**: when every snapshot that writes the variable is one and the same snapshot -- listed
+    once, or several times because the branches of a join share it as an ancestor -- the merged
+    context reads the variable the same in whatever order the snapshots are merged -/
+theorem C08_same_writer_order_free (k : String) (base d : Val.Dict) (ds ds' : List Val.Dict)
+    (hp : ds.Perm ds') (hw : ∀ x ∈ ds, writes k x = true → x = d) :
+    Val.dlookup (mergeAll base ds) k = Val.dlookup (mergeAll base ds') k := by
+  rw [mergeAll_same_writer k d ds base base rfl hw,
+    mergeAll_same_writer k d ds' base base rfl (fun x hx => hw x (hp.mem_iff.mpr hx)),
+    (hp.filter _).length_eq]
+
+/-- **C08**: the same for `get_task_context` over two orders of the same snapshot indices -/
+theorem C08_context_order_free_shared (s : WState) (idxs idxs' : List Nat) (k : String) (d : Val.Dict)
+    (hp : idxs.Perm idxs') (hr : ∀ i ∈ idxs, i < s.contexts.length)
+    (hw : ∀ i ∈ idxs, ∀ x, s.contexts[i]? = some x → writes k x = true → x = d) :
+    ∃ v v', s.taskContext idxs = .ok v ∧ s.taskContext idxs' = .ok v' ∧ Val.dlookup v k = Val.dlookup v' k := by
+  refine ⟨_, _, taskContext_eq_mergeAll s idxs [] hr,
+    taskContext_eq_mergeAll s idxs' [] (fun i hi => hr i (hp.mem_iff.mpr hi)), ?_⟩
+  refine C08_same_writer_order_free k [] d _ _ (hp.filterMap _) ?_
+  intro x hx hwx
+  obtain ⟨i, hi, hix⟩ := List.mem_filterMap.mp hx
+  exact hw i hi x hix hwx
+
+/-- non-vacuity: snapshot `a` is an ancestor of both branches of a join -/
+example : Val.dlookup (mergeAll [] [[("a", .int 1)], [("x", .int 2)], [("a", .int 1)]]) "a"
+    = Val.dlookup (mergeAll [] [[("a", .int 1)], [("a", .int 1)], [("x", .int 2)]]) "a" := by
+  refine C08_same_writer_order_free "a" [] [("a", .int 1)] _ _ (List.Perm.cons _ (List.Perm.swap _ _ _)) ?_
+  intro x hx hw
+  simp only [List.mem_cons, List.not_mem_nil, or_false] at hx
+  rcases hx with rfl | rfl | rfl
+  · rfl
+  · exact absurd hw (by decide)
+  · rfl
+
 end Orq
